@@ -74,6 +74,9 @@ def gen(seed, tier="quick"):
         "threads": assign_ids(threads),
         "sched": sched.draw_policy_spec(rng(seed, "swarm")),
         "opcode_storage": tier == "thorough" and rng(seed, "swarm2").random() < 0.5,
+        # pre-emption between ANY two bytecodes of jaxtyping/ (a race wholly inside one source line): ~5x slower,
+        # a quarter of the thorough runs and 3% of the quick ones
+        "opcode_all": rng(seed, "swarm3").random() < (0.25 if tier == "thorough" else 0.03),
     }
     return scn
 
@@ -143,7 +146,8 @@ def execute(scn):
     scn2 = dict(scn, _expected_yields=max(50, sc0.total_yields))
     ctxsim.clear_caches()
     interp1, runs1, sc1, _ = ctxsim.run_threads(
-        scn2, progs, scn["sched"], rng(seed, "schedule"), opcode_storage=scn.get("opcode_storage", False))
+        scn2, progs, scn["sched"], rng(seed, "schedule"), opcode_storage=scn.get("opcode_storage", False),
+        opcode_all=scn.get("opcode_all", False))
     conc = _transcripts(runs1)
     stats.inc("runs")
     stats.inc("yield_points", sc1.total_yields)
@@ -151,7 +155,9 @@ def execute(scn):
     stats.inc("strategy:" + scn["sched"]["kind"] + (":" + scn["sched"]["w"] if scn["sched"]["kind"] == "window" else ""))
     stats.inc(f"threads:{n}")
     if scn.get("opcode_storage"):
-        stats.inc("opcode_level_runs")
+        stats.inc("opcode_level_runs_storage")
+    if scn.get("opcode_all"):
+        stats.inc("opcode_level_runs_all_files")
     for w, c in sc1.in_window_handover.items():
         stats.inc("handover_in_window:" + w, c)
     nontrivial = [h for h in sc1.handovers if h[1] != "fin"]
